@@ -9,7 +9,7 @@
 use itv_core::engine::*;
 use itv_core::gen::Profile;
 use itv_core::ir::Op;
-use itv_core::payload::Tracked;
+use itv_core::payload::{Payload, Plain, Tracked};
 use itv_core::world::StepCfg;
 use serde_json::json;
 use std::collections::BTreeMap;
@@ -17,7 +17,6 @@ use std::sync::atomic::{AtomicBool, Ordering};
 use std::sync::{Arc, Mutex};
 use std::time::Instant;
 
-type P = Tracked;
 
 fn arg(args: &[String], name: &str) -> Option<String> {
     args.iter().position(|a| a == name).and_then(|i| args.get(i + 1).cloned())
@@ -57,6 +56,14 @@ fn plan(prop: &str, tier: &str) -> Plan {
             p.enum_empty = vec![];
             p.enum_shapes = vec![];
         }
+        "C16" => {
+            p.enum_empty = vec![];
+            p.enum_shapes = vec![];
+            if !quick {
+                p.random_cases = 200_000;
+                p.long_cases = 20_000;
+            }
+        }
         "C13" => {
             p.enum_empty = vec![];
             p.enum_shapes = vec![];
@@ -81,7 +88,7 @@ fn cfg_for(prop: &str, exclude: &[String]) -> StepCfg {
     StepCfg { exclude: exclude.to_vec(), ..StepCfg::default() }
 }
 
-fn write_replay(prop: &str, v: &Violation, prof: &Profile, cfg: &StepCfg, seed: u64, build: &str) -> String {
+fn write_replay<P: Payload>(prop: &str, v: &Violation, prof: &Profile, cfg: &StepCfg, seed: u64, build: &str) -> String {
     let rf = make_replay::<P>(v, prof, cfg, seed, build);
     let dir = format!("/verif/replays/{prop}");
     std::fs::create_dir_all(&dir).ok();
@@ -116,13 +123,20 @@ fn main() {
                 None => println!("REPLAY-PASSES property=C14 file={file}"),
             }
         }
-        "run" => std::process::exit(run(&args, &prop, seed, &build, prof, cfg)),
+        "run" if prop == "C16" => {
+            if Plain::roundtrip(&indextree::Arena::new()).is_none() {
+                eprintln!("this binary was built without the deser feature");
+                std::process::exit(2);
+            }
+            std::process::exit(run::<Plain>(&args, &prop, seed, &build, prof, cfg))
+        }
+        "run" => std::process::exit(run::<Tracked>(&args, &prop, seed, &build, prof, cfg)),
         "replay" => {
             let file = arg(&args, "--file").expect("--file");
             let rf: ReplayFile = serde_json::from_str(&std::fs::read_to_string(&file).expect("read replay")).expect("parse replay");
             let prof = Profile::for_prop(&rf.profile);
             let cfg = cfg_for(&prop, &[]);
-            let run = eval_case::<P>(&rf.ops, &prof, &cfg, true);
+            let run = if rf.profile == "C16" { eval_case::<Plain>(&rf.ops, &prof, &cfg, true) } else { eval_case::<Tracked>(&rf.ops, &prof, &cfg, true) };
             for l in &run.trace {
                 println!("  {l}");
             }
@@ -163,7 +177,7 @@ fn main() {
     }
 }
 
-fn run(args: &[String], prop: &str, seed: u64, build: &str, prof: Profile, cfg: StepCfg) -> i32 {
+fn run<P: Payload>(args: &[String], prop: &str, seed: u64, build: &str, prof: Profile, cfg: StepCfg) -> i32 {
     let t0 = Instant::now();
     let tier = arg(args, "--tier").unwrap_or_else(|| "quick".into());
     let workers: u64 = arg(args, "--workers").and_then(|s| s.parse().ok()).unwrap_or(16);
@@ -301,7 +315,7 @@ fn run(args: &[String], prop: &str, seed: u64, build: &str, prof: Profile, cfg: 
     let mut code = 0;
     let mut viol_json = serde_json::Value::Null;
     if let Some(v) = &violation {
-        let path = write_replay(prop, v, &prof, &cfg, seed, build);
+        let path = write_replay::<P>(prop, v, &prof, &cfg, seed, build);
         println!("VIOLATION property={prop} replay={path}");
         println!("  sig: {}", v.sig);
         println!("  {}", v.msg);
